@@ -541,7 +541,7 @@ func genGBatch(r *rng, thorough bool, shard, shards int, jl *jobList) {
 		rr := newRng(r.next())
 		es := r.pick([]string{"res", "res", "any"})
 		prep, items := gItems(t, n, budget, mask, r.chance(50), func(i int) bool { return rr.chance(50) }, es)
-		base := GBatchSc{N: n, Conc: c, Stop: r.chance(50), Budget: budget, Fb: fbk, ExecS: es, Kind: r.pick([]string{"canceled", "deadline", "cause", "fardeadline"}), Prep: prep, Items: items,
+		base := GBatchSc{N: n, Conc: c, Stop: r.chance(50), Budget: budget, Fb: fbk, ExecS: es, Kind: r.pick([]string{"canceled", "deadline", "cause", "fardeadline", "child"}), Prep: prep, Items: items,
 			Build: r.pick([]string{"builder", "option"}), ExecVia: r.pick([]string{"", "", "copt", "cbuilder"})}
 		switch it % 5 {
 		case 1, 3: // the node has been run before with a different concurrency (and budget / error mode), then re-configured
